@@ -79,7 +79,7 @@ type c07World struct {
 	timer   bool // publish through the real pushConn (200 ms coalescing timer) instead of pushConnNow
 	pending bool // a timer may still be running
 	// stats
-	teardowns, offersSeen, closesSeen, replaced, aborts, lowSel, moves int
+	teardowns, offersSeen, closesSeen, replaced, aborts, lowSel, moves, failedReplaces int
 }
 
 func (w *c07World) logf(f string, a ...any) {
@@ -574,7 +574,7 @@ func c07Machine(t *rapid.T, timer bool, rec *verifkit.Rec) {
 			if w.where[sc] != "" {
 				ops = []string{"request", "request", "request", "publish", "publish", "publish", "leave", "requestStream", "abort", "moderate"}
 				if len(myStreams) > 0 {
-					ops = append(ops, "addTrack", "replace", "close", "close")
+					ops = append(ops, "addTrack", "replace", "close", "close", "failedReplace")
 					if timer {
 						ops = append(ops, "replace", "replace", "replace", "replace")
 					}
@@ -693,6 +693,29 @@ func c07Machine(t *rapid.T, timer bool, rec *verifkit.Rec) {
 					t.Fatalf("abort: %v", err)
 				}
 				selfOnly = true
+			case "failedReplace":
+				// through the real offer handler: an offer that is to replace a live stream but cannot be set up (its SDP
+				// does not parse).  The publisher is told so (abort); the stream it wanted to replace is untouched.
+				// (An SDP that parses but is refused later by pion leaves a track-less replacement behind, and the replaced
+				// stream's close travels with that replacement's own teardown: not modelled, not generated.)
+				if !slices.Contains(sc.c.permissions, "present") {
+					continue
+				}
+				old := myStreams[rapid.IntRange(0, len(myStreams)-1).Draw(t, "old")]
+				w.nstream++
+				id := fmt.Sprintf("s%d", w.nstream)
+				bad := rapid.SampledFrom([]string{"garbage", "o=x\r\n", "\x00\xff", "v=1"}).Draw(t, "badSDP")
+				w.logf("%s offers %s replacing %s with an SDP that cannot be used (%d bytes)", sc.id, id, old.id, len(bad))
+				w.failedReplaces++
+				if err := w.s.send(sc, clientMessage{Type: "offer", Id: id, Label: "camera", SDP: bad, Replace: old.id}); err != nil {
+					t.Fatalf("C12/C07: a failed offer closed the publisher's connection: %v", err)
+				}
+				sc.c.mu.Lock()
+				_, added := sc.c.up[id]
+				sc.c.mu.Unlock()
+				if added {
+					t.Fatalf("VERIF-HARNESS-ERROR: the offer with SDP %q was accepted", bad)
+				}
 			case "publish", "replace":
 				if !slices.Contains(sc.c.permissions, "present") {
 					continue
@@ -933,6 +956,7 @@ func c07Machine(t *rapid.T, timer bool, rec *verifkit.Rec) {
 		rec.ClassN("offers_answered", w.offersSeen)
 		rec.ClassN("closes_received", w.closesSeen)
 		rec.ClassN("streams_ended", w.teardowns)
+		rec.ClassN("replacement_offers_that_failed", w.failedReplaces)
 		rec.ClassN("streams_replaced", w.replaced)
 		rec.ClassN("aborts", w.aborts)
 		rec.ClassN("group_changes_with_a_push_still_queued", w.moves)
